@@ -1,16 +1,5 @@
+import Rbp.Model.Bech32
 namespace Bech
-abbrev W := BitVec 30
-
-def gen (i : Nat) : W := match i with
-  | 0 => 0x3b6a57b2#30 | 1 => 0x26508e6d#30 | 2 => 0x1ea119fa#30 | 3 => 0x3d4233dd#30 | _ => 0x2a1462b3#30
-
-/-- feedback term: xor of gen i over the set bits of the top five bits -/
-def mix (b : W) : W :=
-  (if b.getLsbD 0 then gen 0 else 0) ^^^ (if b.getLsbD 1 then gen 1 else 0) ^^^ (if b.getLsbD 2 then gen 2 else 0) ^^^
-  (if b.getLsbD 3 then gen 3 else 0) ^^^ (if b.getLsbD 4 then gen 4 else 0)
-
-def T (c : W) : W := ((c &&& 0x1ffffff#30) <<< 5) ^^^ mix (c >>> 25)
-def step (c v : W) : W := T c ^^^ v
 
 theorem ite_xor (p q : Bool) (g : W) :
     (if (p ^^ q) then g else 0) = (if p then g else 0) ^^^ (if q then g else 0) := by
